@@ -86,7 +86,9 @@ func raceMarshalAppInfo(info *newrelic.AppInfo, spanMax, logMax, customMax uint6
 	labels := buf.CreateString("[]")
 	metadata := buf.CreateString("{}")
 	host := buf.CreateString(info.Hostname)
+	dockerID := buf.CreateString(info.DockerId)
 	protocol.AppStart(buf)
+	protocol.AppAddDockerId(buf, dockerID)
 	protocol.AppAddAgentLanguage(buf, lang)
 	protocol.AppAddAgentVersion(buf, version)
 	protocol.AppAddAppName(buf, appname)
@@ -251,7 +253,10 @@ func raceOp(t []string) string {
 	limited := collector.NewLimitClient(client, 4, 50*time.Millisecond) // the real limiter in front of it, as in worker.go
 	newrelic.VerifTickersOn()
 	defer newrelic.VerifTickersOff()
-	p := newrelic.NewProcessor(newrelic.ProcessorConfig{Client: limited, UtilConfig: utilization.Config{}, AppTimeout: 10 * time.Minute})
+	// the daemon runs in a Kubernetes pod (the real detection: an environment variable), so its utilization data has a
+	// vendors hash; the agents run in containers of their own and report their container ids
+	os.Setenv("KUBERNETES_SERVICE_HOST", "10.96.0.1")
+	p := newrelic.NewProcessor(newrelic.ProcessorConfig{Client: limited, UtilConfig: utilization.Config{DetectKubernetes: true}, AppTimeout: 10 * time.Minute})
 	runDone := make(chan struct{})
 	go func() { p.Run(); close(runDone) }()
 
@@ -269,6 +274,7 @@ func raceOp(t []string) string {
 		info.Appname = fmt.Sprintf("app %d", i)
 		info.License = collector.LicenseKey(fmt.Sprintf("%040d", i))
 		info.RedirectCollector = ""
+		info.DockerId = fmt.Sprintf("cid%d0a1b2c3d4e5f", i)
 		qrys[i] = raceMarshalAppInfo(&info, 10000, 10000, 30000)
 	}
 
